@@ -14,6 +14,7 @@ import (
 	"fmt"
 	"os"
 	"os/exec"
+	"reflect"
 	"strings"
 	"sync"
 	"time"
@@ -56,11 +57,22 @@ func checkFrozen(fc FrozenCase, all map[string]Op, scratch string) (key, msg str
 				}
 			})
 		}
+		captureOn, captured = true, nil
 		op.Run(scratch)
+		captureOn = false
 		hooks.SetPoint(nil)
 		probes++
 		if d := base.diff(hashGlobals()); len(d) > 0 && badSite < 0 {
 			bad, badSite = d, 1<<30
+		}
+		if badSite < 0 && captured != nil {
+			// overwrite every field of what the call handed back: package-level state must not move with it
+			scribble(reflect.ValueOf(captured), map[uintptr]bool{})
+			captured = nil
+			probes++
+			if d := base.diff(hashGlobals()); len(d) > 0 {
+				return "frozen.result-aliases." + strings.Join(d, ","), fmt.Sprintf("operation %s (sequence %v): overwriting the fields of the list it returned changed package-level state %v: results share memory with the package, so one caller's edit reaches every later call", name, fc.Ops, d), probes
+			}
 		}
 		if badSite >= 0 {
 			where := fmt.Sprintf("at instrumentation site %d", badSite)
@@ -71,6 +83,63 @@ func checkFrozen(fc FrozenCase, all map[string]Op, scratch string) (key, msg str
 		}
 	}
 	return "", "", probes
+}
+
+// scribble overwrites, in place, every string, number and boolean reachable from v.
+func scribble(v reflect.Value, seen map[uintptr]bool) {
+	switch v.Kind() {
+	case reflect.Ptr:
+		if v.IsNil() || seen[v.Pointer()] {
+			return
+		}
+		seen[v.Pointer()] = true
+		scribble(v.Elem(), seen)
+	case reflect.Interface:
+		if !v.IsNil() {
+			scribble(v.Elem(), seen)
+		}
+	case reflect.Struct:
+		// colours are value objects: results point at the package's exported Color variables (ColorRed ...) by
+		// design of the public API, which is not state the package keeps between calls
+		if v.Type().PkgPath() == "time" || v.Type().Name() == "Color" {
+			return
+		}
+		for i := 0; i < v.NumField(); i++ {
+			if f := v.Field(i); f.CanSet() || f.Kind() == reflect.Ptr || f.Kind() == reflect.Slice || f.Kind() == reflect.Map {
+				scribble(f, seen)
+			}
+		}
+	case reflect.Slice, reflect.Array:
+		for i := 0; i < v.Len(); i++ {
+			scribble(v.Index(i), seen)
+		}
+	case reflect.Map:
+		for _, k := range v.MapKeys() {
+			if e := v.MapIndex(k); e.Kind() == reflect.Ptr || e.Kind() == reflect.Slice || e.Kind() == reflect.Map {
+				scribble(e, seen)
+			}
+		}
+	case reflect.String:
+		if v.CanSet() {
+			v.SetString(v.String() + "~scribbled")
+		}
+	case reflect.Int, reflect.Int8, reflect.Int16, reflect.Int32, reflect.Int64:
+		if v.CanSet() {
+			v.SetInt(v.Int() + 1)
+		}
+	case reflect.Uint, reflect.Uint8, reflect.Uint16, reflect.Uint32, reflect.Uint64:
+		if v.CanSet() {
+			v.SetUint(v.Uint() + 1)
+		}
+	case reflect.Float32, reflect.Float64:
+		if v.CanSet() {
+			v.SetFloat(v.Float() + 1)
+		}
+	case reflect.Bool:
+		if v.CanSet() {
+			v.SetBool(!v.Bool())
+		}
+	}
 }
 
 type SchedCase struct {
